@@ -465,6 +465,17 @@ def has_inexact_weights(e):
   return any(has_inexact_weights(x) for x in sub_exprs(e))
 
 
+def all_prims(case):
+  """primitive names of a case (ordinary expression, or the operations inside the stages of a nested case)."""
+  if 'stages' in case:
+    acc = []
+    for st in case['stages']:
+      if st[0] in ('flat', 'forEach'):
+        expr_prims(st[1], acc)
+    return acc
+  return expr_prims(case['expr'])
+
+
 EXPR_HEADS = {'prim', 'identity', 'seq', 'concat', 'union', 'inter', 'diff', 'symdiff', 'inv', 'slice',
               'repeat', 'power', 'choice', 'cond', 'until'}
 
@@ -603,7 +614,8 @@ class C14(Prop):
           'Cycle; `where` filters of a closed family on Uniform / Swap; step-driven scalars (STEP, + - * // %) in '
           'the integer parameters, in `with_prob` and `KPoint.k`, incl. scalars.StepWise; `where.Any(k)`, k in 0-9, for '
           'the permutation recombinators; each case run at a step 0-9, schedule cases also after a warm-up at the '
-          'earlier steps. Non-trivial: the expression returns '
+          'earlier steps; nested populations (grouping lambda, `.for_each(op)`, `.for_each(lambda)`, `.flatten(max_level)`); '
+          'populations with several individuals sharing a DNA value. Non-trivial: the expression returns '
           'normally, the population is non-empty and at least one primitive of the expression made a PRNG '
           'draw or produced a new DNA; distinct: by (spec, population, expression, seed).')
   trusted_base = [
@@ -633,6 +645,9 @@ class C14(Prop):
     n = 420 if tier == "quick" else 6000
     for i in range(n):
       yield self.gen_case(rng)
+    # nested populations: grouping, `.for_each(op)`, `.flatten(max_level)`
+    for i in range(60 if tier == 'quick' else 600):
+      yield self.gen_nested_case(rng.fork())
     # the driver level: Evolution and the shipped algorithms with pass-through reproduction stages
     for i in range(40 if tier == 'quick' else 400):
       yield self.gen_evolve_case(rng.fork())
@@ -640,7 +655,17 @@ class C14(Prop):
     for i in range(75 if tier == 'quick' else 750):
       r = rng.fork()
       size = r.randint(4, 7)
-      perm = ['choices', size, [_C0] * size, True, False]
+      if r.chance(0.5):
+        cands = [_C0] * size
+      else:
+        # candidates that carry decision points of their own (pg.permutate([pg.oneof([..]), 'x', pg.floatv(..), 'y']))
+        size = min(size, 5)
+        cands = [r.choice([_C0, _C0, ['space', [['choices', 1, [_C0, _C0, _C0], True, False]]],
+                           ['space', [['float', [0, 0], [1, 0]]]],
+                           ['space', [['choices', 2, [_C0, _C0, _C0], r.chance(0.5), False]]],
+                           ['space', [['choices', 1, [_C0, ['space', [['float', [0, 0], [2, 0]]]]], True, False],
+                                      ['float', [-1, 0], [1, 0]]]]]) for _ in range(size)]
+      perm = ['choices', size, cands, True, False]
       spec = ['space', [perm] + ([gen_point(r, 0)] if r.chance(0.3) else []) + ([perm] if r.chance(0.2) else [])]
       pop = [{'nums': gen_dna(r, spec), 'fit': r.randint(-3, 6)} for _ in range(2)]
       prim = ['prim', r.choice(['recPartiallyMapped', 'recPartiallyMapped', 'recCycle', 'recOrder'])]
@@ -671,6 +696,35 @@ class C14(Prop):
         if prim[1] in ('recKPoint', 'recSegmented', 'recOrder', 'recPartiallyMapped', 'recCycle'):
           pop = pop[:2]
         yield {'spec': spec, 'pop': pop, 'expr': prim, 'seed': r.below(1 << 30)}
+
+  def gen_nested_case(self, r):
+    spec = gen_root(r, r.weighted([(3, 0), (4, 1)]))
+    pop = [{'nums': gen_dna(r, spec), 'fit': r.randint(-3, 6)} for _ in range(r.randint(0, 7))]
+    inner = lambda: r.choice([['prim', 'recKPoint', r.randint(1, 2)], ['prim', 'recUniform'], ['prim', 'recSample'],
+                              ['prim', 'mutUniform'], ['prim', 'mutSwap'], ['prim', 'selTop', 1],
+                              ['prim', 'selRandom', 1, False], ['prim', 'recOrder'], ['identity'],
+                              ['seq', ['prim', 'selFirst', 2], ['prim', 'recKPoint', 1]],
+                              ['repeat', ['prim', 'mutUniform'], 2]])
+    flat = lambda: r.choice([['prim', 'selRandom', r.randint(2, 5), r.chance(0.3)], ['prim', 'selLast', r.randint(1, 4)],
+                             ['prim', 'mutUniform'], ['identity'], ['prim', 'selTop', r.randint(1, 4)]])
+    m = lambda: r.choice([None, None, 1, 2, 3])
+    k = r.weighted([(4, 'group'), (2, 'wrap'), (2, 'roundtrip'), (2, 'deep'), (1, 'bad')])
+    if k == 'group':
+      stages = [['flat', flat()], ['chunk', r.randint(1, 3)], ['forEach', inner()], ['flatten', m()]]
+      if r.chance(0.4):
+        stages.append(['flat', flat()])
+    elif k == 'wrap':
+      stages = [['flat', flat()], ['forEachWrap'], ['flatten', m()]]
+      if r.chance(0.5):
+        stages.append(['flatten', m()])
+    elif k == 'roundtrip':
+      stages = [['chunk', r.randint(1, 4)], ['flatten', m()], ['flat', flat()]]
+    elif k == 'deep':
+      stages = [['chunk', r.randint(1, 3)], ['forEachWrap'], ['flatten', r.choice([1, 2])], ['flatten', m()]]
+    else:
+      stages = [['chunk', 2], ['flat', flat()]]           # an ordinary operation handed a nested population
+    return {'kind': 'nested', 'spec': spec, 'pop': pop, 'stages': stages, 'expr': ['identity'],
+            'seed': r.below(1 << 30), 'step': r.below(10)}
 
   def gen_evolve_case(self, r):
     spec = gen_root(r, r.weighted([(3, 0), (3, 1)]))
@@ -720,8 +774,11 @@ class C14(Prop):
     pop = []
     for _ in range(npop):
       pop.append({'nums': gen_dna(r, spec), 'fit': r.randint(-3, 6)})
-    if pop and r.chance(0.15):
-      pop.append(dict(pop[0]))          # equal DNA values in two different objects
+    if pop and r.chance(0.3):
+      # the same point evaluated twice: equal DNA values in two different objects, other rewards
+      for _ in range(r.randint(1, 2)):
+        src = pop[r.below(len(pop))]
+        pop.insert(r.below(len(pop) + 1), {'nums': list(src['nums']), 'fit': r.randint(-3, 6)})
     mode = r.weighted([(73, 'typed'), (12, 'sloppy'), (15, 'oracle_only')])
     g = ExprGen(r, len(pop), sloppy=(mode == 'sloppy'), oracle_only=(mode == 'oracle_only'))
     e, _ = g.expr(r.weighted([(1, 0), (3, 1), (5, 2), (5, 3), (4, 4)]))
@@ -883,6 +940,30 @@ class C14(Prop):
       return self.build_expr(e[1], ctx).until_change(e[2])
     raise ValueError('unknown expression head %r' % h)
 
+  def build_case_op(self, case, ctx):
+    """The operation of a case: its expression, or (nested cases) the stages chained with the fluent API:
+    `>>`, `Lambda`, `.for_each(op)`, `.flatten(max_level)`."""
+    if 'stages' not in case:
+      return self.build_expr(case['expr'], ctx)
+    from pyglove.ext.evolution import base
+    op = base.Identity()
+    for st in case['stages']:
+      h = st[0]
+      if h == 'flat':
+        op = op >> self.build_expr(st[1], ctx)
+      elif h == 'chunk':
+        k = st[1]
+        op = op >> base.Lambda(lambda xs, k=k: [xs[i:i + k] for i in range(0, len(xs), k)])
+      elif h == 'forEach':
+        op = op.for_each(self.build_expr(st[1], ctx))
+      elif h == 'forEachWrap':
+        op = op.for_each(lambda x: [x, [x]])
+      elif h == 'flatten':
+        op = op.flatten(st[1])
+      else:
+        raise ValueError('unknown stage %r' % (st,))
+    return op
+
   def install_recorders(self, op, log):
     """Replaces the `random.Random(seed)` of every operation reachable from `op` (symbolic fields and
     the private `_invert_op` of Inversion, which holds a *copy* of the operand) by a RecRandom with
@@ -949,13 +1030,14 @@ class C14(Prop):
     pop = [self.build_dna(spec, ind) for ind in case['pop']]
     log = []
     ctx = {'seed': case.get('seed', 0), 'log': log, 'n': 0}
-    op = self.build_expr(case['expr'], ctx)
+    op = self.build_case_op(case, ctx)
     unseeded = self.install_recorders(op, log)
     _pyrandom.seed(1000003 * gseed + 17)      # a seeded operator must not depend on this
     before = [pg.to_json_str(d) for d in pop]
     ids = {id(d): i for i, d in enumerate(pop)}
     pop_arg = list(pop)
     calls = []
+    combos = []
     out, err = None, None
     orig_call = base.Operation.__call__
 
@@ -977,20 +1059,38 @@ class C14(Prop):
           items.append({'nums': nums, 'beliefs': bel})
         log.append(['order', items])
 
+    stack = []
+
     def spy(self_op, inputs, *a, **k):
       cls = type(self_op).__name__
       mod = type(self_op).__module__.rsplit('.', 1)[-1]
       prim = mod in ('mutators', 'selectors', 'recombinators', 'nsga2')
+      if hook and not prim and isinstance(inputs, list):
+        # a combinator: remember what each direct operand returned (for the set-algebra oracle)
+        node = {'op': self_op, 'cls': cls, 'in': list(inputs), 'kids': []}
+        if stack:
+          stack[-1]['kids'].append(node)
+        stack.append(node)
+        try:
+          res = orig_call(self_op, inputs, *a, **k)
+          node['out'] = list(res) if isinstance(res, list) else None
+          return res
+        finally:
+          stack.pop()
+          if cls in ('Difference', 'Intersection', 'Union', 'SymmetricDifference', 'Concatenation'):
+            combos.append(node)
       if not prim or not isinstance(inputs, list):
         return orig_call(self_op, inputs, *a, **k)
       if not hook:
         res = orig_call(self_op, inputs, *a, **k)
         note_set_order(self_op, inputs, res)
         return res
-      rec = {'cls': cls, 'mod': mod, 'op': self_op, 'in': list(inputs),
+      rec = {'cls': cls, 'mod': mod, 'op': self_op, 'in': list(inputs), 'kids': [],
              'in_parent': [getattr(d, 'sym_parent', None) for d in inputs],
              'in_json': [pg.to_json_str(d) if isinstance(d, pg.DNA) else None for d in inputs]}
       calls.append(rec)
+      if stack:
+        stack[-1]['kids'].append(rec)
       try:
         res = orig_call(self_op, inputs, *a, **k)
       except Exception as ex:   # pylint: disable=broad-except
@@ -1046,20 +1146,21 @@ class C14(Prop):
       base.Operation.__call__ = orig_call
       _rec._merge_multi_choice = orig_mm          # pylint: disable=protected-access
     return {'spec': spec, 'pop': pop, 'pop_arg': pop_arg, 'before': before, 'ids': ids, 'log': log,
-            'calls': calls, 'out': out, 'err': err, 'unseeded': unseeded, 'mm_paths': mm_paths}
+            'calls': calls, 'out': out, 'err': err, 'unseeded': unseeded, 'mm_paths': mm_paths,
+            'combos': combos}
 
   def canon_out(self, run):
     if run['err'] is not None:
       e = run['err']
       return {'outcome': 'err', 'err': e if e in ERR_NAMES else 'Other:' + e}
-    out = run['out']
-    items = []
     fresh = {}
     import pyglove as pg
-    for d in out:
+
+    def canon(d):
+      if isinstance(d, list):
+        return {'list': [canon(x) for x in d]}
       if not isinstance(d, pg.DNA):
-        items.append({'id': ['other', type(d).__name__]})
-        continue
+        return {'id': ['other', type(d).__name__]}
       if id(d) in run['ids']:
         ident = ['in', run['ids'][id(d)]]
       else:
@@ -1068,9 +1169,10 @@ class C14(Prop):
         ident = ['new', fresh[id(d)]]
       nums, bel = self.flat(d)
       fit = d.metadata.get('reward')
-      items.append({'id': ident, 'nums': nums, 'beliefs': bel,
-                    'fit': None if fit is None else (int(round(fit * 4)) if isinstance(fit, (int, float))
-                                                        else repr(fit))})
+      return {'id': ident, 'nums': nums, 'beliefs': bel,
+              'fit': None if fit is None else (int(round(fit * 4)) if isinstance(fit, (int, float))
+                                                  else repr(fit))}
+    items = [canon(d) for d in run['out']]
     return {'outcome': 'ok', 'out': items}
 
   def is_valid(self, spec, d):
@@ -1184,18 +1286,24 @@ class C14(Prop):
         in_ids = {id(d) for d in ins}
         if c['mod'] == 'mutators' and any(id(d) in in_ids for d in outs):
           fail('mutator-returns-input:' + c['cls'], '%s returned one of its input objects' % c['cls'])
+    # --- set algebra, as documented: on object identities (`x - y` drops exactly the objects `y` returned) ---
+    for c in run['combos']:
+      f = self.set_algebra_failure(c)
+      if f:
+        fail('set-algebra:' + c['cls'], f)
     # --- whole expression ---
     if [pg.to_json_str(d) for d in run['pop']] != run['before']:
       fail('population-modified', 'the population passed to the expression was modified')
     if len(run['pop_arg']) != len(run['pop']) or any(a is not b for a, b in zip(run['pop_arg'], run['pop'])):
       fail('population-list-modified', 'the list passed to the expression was modified')
-    prims = expr_prims(case['expr'])
+    prims = all_prims(case)
     if run['out'] is not None and pop_ok and not tainted and all(
         p not in ('lambdaDrop1', 'lambdaReverse', 'forEachFlatten') or True for p in prims):
       for d in run['out']:
         if isinstance(d, pg.DNA) and not self.is_valid(spec, d):
           fail('invalid-output', 'expression returned %r, not valid for the spec' % d)
-    if run['out'] is not None and all(p.startswith('sel') for p in prims):
+    if run['out'] is not None and all(p.startswith('sel') for p in prims) and all(
+        isinstance(d, pg.DNA) for d in run['out']):
       ids = run['ids']
       if any(id(d) not in ids for d in run['out']):
         fail('pipeline-nonmember', 'a composition of selectors returned a non-member')
@@ -1314,6 +1422,61 @@ class C14(Prop):
             'mm_paths': []}
 
   @staticmethod
+  def set_algebra_failure(c):
+    """Difference / Intersection / Union / SymmetricDifference / Concatenation against their documented
+    meaning on object identities, from what the operands returned in this very call."""
+    ops = list(getattr(c['op'], '_ops', []))
+    outs = []
+    for o in ops:
+      k = [r for r in c['kids'] if r['op'] is o]
+      if len(k) != 1 or k[0].get('out') is None:
+        return None                      # an operand raised or is not an Operation: nothing to compare
+      outs.append(k[0]['out'])
+    if c.get('out') is None or len(outs) < 1:
+      return None
+    got = [id(x) for x in c['out']]
+    ids = [[id(x) for x in o] for o in outs]
+    cls = c['cls']
+    if cls == 'Difference':
+      excl = set(i for o in ids[1:] for i in o)
+      want = [i for i in ids[0] if i not in excl]
+      law = '|x - y| = |x| - |{d in x : d is in y}|'
+    elif cls == 'Intersection':
+      n = len(ids) - 1
+      cnt = {}
+      for o in ids[1:]:
+        for i in o:
+          cnt[i] = cnt.get(i, 0) + 1
+      want = [i for i in ids[0] if cnt.get(i, 0) == n]
+      law = 'x & y keeps the objects of x that y returned'
+    elif cls == 'Union':
+      want, seen = [], set()
+      for o in ids:
+        for i in o:
+          if i not in seen:
+            seen.add(i)
+            want.append(i)
+      law = 'x | y is x followed by the objects of y that x did not return'
+    elif cls == 'SymmetricDifference':
+      where_ = {}
+      for n_, o in enumerate(ids):
+        for i in o:
+          where_.setdefault(i, set()).add(n_)
+      want = [i for o in ids for i in o if len(where_[i]) == 1]
+      law = 'x ^ y keeps the objects returned by exactly one operand'
+    else:
+      want = [i for o in ids for i in o]
+      law = 'x + y is the concatenation'
+    if got != want:
+      pos = {}
+      for o in outs + [c['out']]:
+        for x in o:
+          pos.setdefault(id(x), repr(x))
+      return '%s (by object identity): expected %d objects, got %d; operands returned %s, result %s' % (
+          law, len(want), len(got), [[pos[i] for i in o] for o in ids], [pos[i] for i in got])
+    return None
+
+  @staticmethod
   def bad_cuts(op, spec_json):
     try:
       cuts = list(op.cutting_points([]))
@@ -1357,7 +1520,7 @@ class C14(Prop):
   def model_request(self, case):
     if case.get('kind') == 'evolve':
       return None
-    prims = expr_prims(case['expr'])
+    prims = all_prims(case)
     if any(p not in MODEL_PRIMS for p in prims):
       return None
     return self.model_request_with_impl(case, self._impl_memo(case))
@@ -1366,15 +1529,19 @@ class C14(Prop):
     """The oracle stream fed to the model is the PRNG log recorded by the implementation run."""
     if case.get('kind') == 'evolve':
       return None          # the driver level has no model part: property oracle only
-    prims = expr_prims(case['expr'])
-    if any(p not in MODEL_PRIMS for p in prims) or has_inexact_weights(case['expr']):
+    prims = all_prims(case)
+    if any(p not in MODEL_PRIMS for p in prims) or ('stages' not in case and has_inexact_weights(case['expr'])):
       return None
     pop = []
     for ind in case['pop']:
       pop.append({'nums': ind['nums'], 'beliefs': self.positional_beliefs(case['spec'], ind['nums']),
                   'fit': ind.get('fit')})
-    return {'spec': case['spec'], 'pop': pop, 'oracle': out['oracle'], 'expr': case['expr'],
-            'step': case.get('step', 0)}
+    req = {'spec': case['spec'], 'pop': pop, 'oracle': out['oracle'], 'step': case.get('step', 0)}
+    if 'stages' in case:
+      req['stages'] = case['stages']
+    else:
+      req['expr'] = case['expr']
+    return req
 
   @staticmethod
   def positional_beliefs(spec, nums):
@@ -1405,6 +1572,21 @@ class C14(Prop):
       if model_out['err'] == 'unmodelled':
         return None
       b = {'outcome': 'err', 'err': model_out['err']}
+    elif 'stages' in case:
+      def norm(o):
+        if 'list' in o:
+          return {'list': [norm(x) for x in o['list']]}
+        return {'id': o.get('id'), 'beliefs': o.get('beliefs'), 'fit': o.get('fit'),
+                'nums': [str(Fraction(x[1], x[2]) if x[0] == 'q' else Fraction(x[0], 1 << x[1]))
+                         if isinstance(x, list) else x for x in o.get('nums', [])]}
+      if model_out.get('left'):
+        return 'model left %d recorded draws unused' % model_out['left']
+      if a['outcome'] != 'ok':
+        return 'impl=%s model=ok' % json.dumps(a)[:300]
+      na, nb = [norm(o) for o in a['out']], [norm(o) for o in model_out['ok']]
+      if na != nb:
+        return 'impl=%s model=%s' % (json.dumps(na)[:500], json.dumps(nb)[:500])
+      return None
     else:
       b = {'outcome': 'ok', 'out': [{k: o[k] for k in ('id', 'nums', 'beliefs', 'fit')} for o in model_out['ok']]}
       if model_out.get('left'):
@@ -1491,10 +1673,12 @@ class C14(Prop):
     for k in ('nested', 'multi', 'float', 'perm', 'sortedmulti', 'distinctmulti'):
       if st[k]:
         h.append('spec:' + k)
-    for p in sorted(set(expr_prims(case['expr']))):
+    for p in sorted(set(all_prims(case))):
       h.append('prim:' + p)
     if '"kinds"' in json.dumps(case['expr']) or '"valueLt"' in json.dumps(case['expr']) or '"indexEq"' in json.dumps(case['expr']) or '"valueEq"' in json.dumps(case['expr']):
       h.append('mutator-with-where-filter')
+    for st in case.get('stages', []):
+      h.append('nested-stage:' + st[0])
     if '"sched"' in json.dumps(case['expr']):
       h.append('scheduled-scalar(step=%d)' % case.get('step', 0))
     for p in sorted(set(expr_heads(case['expr']))):
@@ -1504,6 +1688,9 @@ class C14(Prop):
       h.append('oracle-only(no model part)')
     if out.get('tainted'):
       h.append('tainted-by-F21')
+    nums_ = [json.dumps(ind['nums']) for ind in case['pop']]
+    if len(set(nums_)) < len(nums_):
+      h.append('pop:equal-dna-values-in-distinct-individuals')
     if obs['outcome'] == 'ok':
       n = len(obs['out'])
       h.append('out:%s' % (n if n < 6 else '6+'))
@@ -1525,6 +1712,12 @@ class C14(Prop):
         a = list(case['algo'])
         a[1] = s
         yield dict(case, algo=a)
+      return
+    if 'stages' in case:
+      for i in range(len(case['stages'])):
+        yield dict(case, stages=case['stages'][:i] + case['stages'][i + 1:])
+      for i in range(len(case['pop'])):
+        yield dict(case, pop=case['pop'][:i] + case['pop'][i + 1:])
       return
     e = case['expr']
     for s in sub_exprs(e):
